@@ -90,6 +90,119 @@ MAP = {
 }
 
 
+# export key -> the harness module whose host generator exercises it (a key missing here fails the obligation below)
+GENERATOR = {"noop": "c05_fam_noop", "cast": "c05_fam_cast", "scatter": "c05_fam_scatter", "slices": "c05_fam_slices", "expand": "c05_fam_expand",
+             "transpose": "c05_fam_transpose", "unsqueeze": "c05_fam_unsqueeze", "reshape": "c05_fam_reshape", "minmax": "c05_fam_minmax",
+             "clip": "c05 (fam_clip)", "padconv": "c05_fam_padconv", "batchnorm": "c05_fam_batchnorm", "convaffine": "c05_fam_convaffine",
+             "hardswish": "c05_fam_hardswish", "matmul": "c05_fam_matmul", "optbias": "c05_fam_optbias", "fusion": "c05_fam_fusion"}
+# exercised by another property's harness (its own check counts them): not counted here
+ELSEWHERE = {"expand-binop (C09)": "harness/c09*.py (./check C09)"}
+# floor of fired hosts per exported key and tier (a count of 0 is a rule whose theorem no firing host ties to the code)
+FLOOR = {"quick": 1, "thorough": 1}
+
+
+def _probe_dropout_inference():
+    """`op.Dropout(x, training_mode=False)` asks for an ATTRIBUTE training_mode; no Dropout schema has one (it is an input since
+    opset 12): the checker rejects every host the pattern could match, so no valid host fires the rule.  -> (ok, detail)"""
+    import onnx
+    from onnx import TensorProto, helper
+    rejected = []
+    for opset in (7, 10, 12, 13, 22):
+        n = helper.make_node("Dropout", ["x"], ["y"], training_mode=0)
+        g = helper.make_graph([n], "g", [helper.make_tensor_value_info("x", TensorProto.FLOAT, [3])], [helper.make_tensor_value_info("y", TensorProto.FLOAT, [3])])
+        m = helper.make_model(g, opset_imports=[helper.make_opsetid("", opset)], ir_version=8)
+        try:
+            onnx.checker.check_model(m, full_check=True)
+            rejected.append(False)
+        except Exception:  # noqa: BLE001
+            rejected.append(True)
+    has_attr = any(a.name == "training_mode" for s_ in onnx.defs.get_all_schemas_with_history() if s_.name == "Dropout" and s_.domain == ""
+                   for a in s_.attributes.values())
+    return all(rejected) and not has_attr, f"checker rejects the attribute at opsets 7,10,12,13,22: {rejected}; a Dropout schema declares it: {has_attr}"
+
+
+def _probe_slice_split():
+    """The two-output pattern Slice(x,..), Slice(x,..) binds both pattern nodes to one graph node (observed by c05_fam_slices on every
+    run); on the canonical valid host (x[2,4], two half Slices on the last axis, opset 18) the rule does not fire.  -> (ok, detail)"""
+    import numpy as np
+    from onnx import helper
+    from harness import c05_basic_util as BU
+    import onnxscript.rewriter.rules.common as rc
+    d = 4
+    inits = [BU.const_arr("b0", np.array([0], np.int64)), BU.const_arr("e0", np.array([d // 2], np.int64)),
+             BU.const_arr("b1", np.array([d // 2], np.int64)), BU.const_arr("e1", np.array([d], np.int64)), BU.const_arr("ax", np.array([-1], np.int64))]
+    nodes = [helper.make_node("Slice", ["x", "b0", "e0", "ax"], ["y0"]), helper.make_node("Slice", ["x", "b1", "e1", "ax"], ["y1"])]
+    host = BU.model(nodes, [("x", "float32", [2, d])], [("y0", "float32", [2, 2]), ("y1", "float32", [2, 2])], inits=inits, opset=18)
+    new = BU.apply_rule(host, [rc.slice_split_rule])
+    return "Split" not in BU.ops(new), f"ops after applying slice_split_rule to the canonical host: {BU.ops(new)}"
+
+
+# rules that no valid host can fire, with the probe that re-establishes the reason on every run; a rule listed here that DOES fire
+# (count > 0) or whose probe fails is reported: the exemption is then stale
+UNFIREABLE = {
+    "dropout_inference_rule": ("pattern requires an attribute `training_mode`, which no Dropout schema has: every matching host is checker-invalid", _probe_dropout_inference),
+    "slice_split_rule": ("two-output pattern binds both Slice pattern nodes to one graph node: the rule does not fire on two half Slices (dead rule, see C05:slicesplit:*)", _probe_slice_split),
+}
+
+
+def fired_counts(ctx, found):
+    """Every exported rule is mapped to its host generator and must have FIRED in this run (all C05 families run before this
+    one; counts come from the hook c05.install_fired_counter on RewriteRule.try_rewrite)."""
+    from harness import c05 as base
+    per_key, per_object, zero_objects, no_gen = {}, {}, [], []
+    for k, rs in sorted(found.items()):
+        fam = MAP[k][0] if k in MAP else None
+        if fam in ELSEWHERE:
+            per_key[k] = f"counted by {ELSEWHERE[fam]}"
+            continue
+        if fam not in GENERATOR:
+            no_gen.append(k)
+            continue
+        tot = 0
+        for r in rs:
+            n = base.FIRED.get(base.rule_sig(r), 0)
+            tot += n
+            if len(rs) > 1:
+                per_object[f"{k}[{r.name or '?'}:{abs(hash(base.rule_sig(r)[1])) % 10000}]"] = n
+                if n == 0:
+                    zero_objects.append(f"{k}[{r.name}]")
+        per_key[k] = tot
+    floor = FLOOR.get(ctx.tier, 1)
+    exempt = {}
+    for k, (why, probe) in UNFIREABLE.items():
+        if k not in per_key or not isinstance(per_key[k], int):
+            continue
+        try:
+            okp, detail = probe()
+        except Exception as e:  # noqa: BLE001
+            okp, detail = False, f"probe raised {e!r}"
+        if per_key[k] > 0 or not okp:
+            ctx.tie_broken("harness", "c05-rule-inventory", f"{k} is listed as unfireable ({why}) but fired {per_key[k]} time(s) / probe: {detail}")
+        exempt[k] = {"fired": per_key[k], "reason": why, "probe": detail, "probe_ok": okp}
+        per_key[k] = f"exempt ({per_key[k]} fired): {why}"
+    ctx.obligation("inventory: every rule exempted from the fired-count floor is unfireable for the stated reason (probe re-run now) and did not fire",
+                   all(v["probe_ok"] and v["fired"] == 0 for v in exempt.values()), json_short(exempt))
+    low = sorted(k for k, v in per_key.items() if isinstance(v, int) and v < floor)
+    ctx.cover(inventory_fired_per_rule=per_key, inventory_unfireable=exempt, inventory_fired_per_rule_object=per_object, inventory_rule_objects_never_fired=zero_objects,
+              inventory_generator_of_family=GENERATOR)
+    ctx.obligation("inventory: every exported rule is mapped to a host generator (family harness module)", not no_gen, "; ".join(no_gen))
+    for k in no_gen:
+        ctx.tie_broken("harness", "c05-rule-inventory", f"exported rule {k} has no host generator in GENERATOR")
+    ok = not low
+    ctx.obligation(f"generator not degenerate: every exported rule fired on at least {floor} generated host(s) in this run "
+                   f"(per-rule counts in coverage.inventory_fired_per_rule)", ok,
+                   ("never / too rarely fired: " + "; ".join(f"{k}={per_key[k]}" for k in low)) if low else
+                   f"min {min(v for v in per_key.values() if isinstance(v, int))} over {sum(1 for v in per_key.values() if isinstance(v, int))} rules")
+    for k in low:
+        ctx.tie_broken("harness", "generator degenerate", f"rule {k} ({GENERATOR.get(MAP[k][0])}) fired {per_key[k]} time(s) in the {ctx.tier} tier, floor {floor}: "
+                       "its theorem is not tied to the implementation by any firing host")
+
+
+def json_short(o):
+    import json
+    return json.dumps(o, default=str)[:600]
+
+
 def _rules_of(obj, rr):
     if isinstance(obj, rr.RewriteRule):
         return [obj]
@@ -213,5 +326,6 @@ def family(ctx):
     ctx.cover(inventory_rule_objects=n_rules, inventory_keys=len(found), inventory_default_rules=len(rewriter._DEFAULT_REWRITE_RULES),
               inventory_default_by_family=default_fams)
     ctx.case(("inventory", len(found), n_rules))
+    fired_counts(ctx, found)
     if "C09" in {v[1] for v in MAP.values()}:
         ctx.trust("expand_before_binary_op_rules (38 rules) are covered by the C09 theorems (Props/C09.v), built and checked by ./check C09")
